@@ -335,13 +335,17 @@ def run_history(arg):
                 whole = pf.to_pandas()
                 return (frame_cells(whole, bool(h["index"])), dsfs.refs_of(pf) if not simple else [], len(pf.row_groups),
                         cat_observation(pf, whole, [c["name"] for c in h["cols"] if c["kind"] in CAT_KINDS]),
-                        old_chunk_ranges(pf) if simple else [])
+                        old_chunk_ranges(pf) if simple else [], [pf.fmd.num_rows, sum(rg.num_rows for rg in pf.row_groups), pf.count()])
             s, val = dsfs.guarded(reader, READ_TIMEOUT)
             if s != "ok":
                 st["problems"].append(("unreadable", "fresh open/read after step %d: %s %s" % (i, s, val)))
             else:
-                got, refs_a, nrg, st["cat"], ranges_a = val
+                got, refs_a, nrg, st["cat"], ranges_a, counts = val
                 st["nrg"] = nrg
+                want_rows = len(expected[0][1]) if expected else 0
+                if expected and any(c != want_rows for c in counts):
+                    st["problems"].append(("row-count-metadata", "FileMetaData.num_rows %d, sum of row-group num_rows %d, count() %d; %d rows were written" % (
+                        counts[0], counts[1], counts[2], want_rows)))
                 if simple and i > 0:
                     # the new footer lists the old column chunks first and unchanged, then the new ones, which lie
                     # between the old footer start and the new footer start, in order (model: descs ++ place loc rgs)
@@ -413,7 +417,6 @@ def run(ctx):
     ctx.obligation("hygiene: no Admitted/Axiom/Parameter/... in coq/", not bad, "; ".join(bad))
     C.use_shadow()
     C.pqref()
-    import multiprocessing as mp
     rng = ctx.rng
     nh, nconf = (300, 20) if ctx.quick() else (3000, 100)
     ctx.rule = ("history = first write + 1..4 appends of frames with the same columns and dtypes (%d kinds incl. nullable, strings, bytes, json, "
@@ -428,8 +431,16 @@ def run(ctx):
             h = json.load(open(os.path.join(cdir, f)))["history"]
             h["id"] = 100000 + i
             hs.insert(0, h)
-    with mp.get_context("fork").Pool(NPROC) as pool:
-        results = pool.map_async(run_history, [(h, ctx.scratch) for h in hs], chunksize=1).get(timeout=1200 if ctx.quick() else 6000)
+    # crash-proof parallel map: a history whose worker dies or hangs is a reported failure, not a hung check
+    results = C.pmap(run_history, [(h, ctx.scratch) for h in hs], nproc=NPROC, job_timeout=600 if ctx.quick() else 1200)
+    for h, res in zip(hs, list(results)):
+        if isinstance(res, dict) and "__crashed__" in res:
+            ctx.case({"h": h, "step": "crashed"})
+            ctx.fail({"component": "append", "scheme": h["scheme"], "symptom": "process-crashed-or-hung", "kind": None, "new_labels": False,
+                      "partitioned": bool(h["partition_on"]), "index": bool(h["index"])},
+                     {"history": h, "failing_step": None, "observed": res["__crashed__"]},
+                     "the process running this history on the real code %s" % res["__crashed__"])
+    results = [r for r in results if not (isinstance(r, dict) and "__crashed__" in r)]
     by_id = {h["id"]: h for h in hs}
     cmds, meta = [], []
     mono_seen, mono_bad = [0], []
@@ -462,6 +473,8 @@ def run(ctx):
                 continue
             if h["scheme"] == "simple":
                 if "before" in st:
+                    cmds.append(("append_rel", st["before"], st["after"]))
+                    meta.append(("rel", short, st))
                     cmds.append(("append_seq", st["before"], st["chunks"]))
                     meta.append(("seq", short, st))
                     mono_seen[0] += 1
@@ -488,6 +501,7 @@ def run(ctx):
     if len(outs) != len(cmds):
         raise RuntimeError("pqref answered %d of %d commands" % (len(outs), len(cmds)))
     model_trace = {"equal": 0, "different": 0, "examples": []}
+    seq_model = {"equal": 0, "different": 0, "examples": []}
     for (kind, short, st), o in zip(meta, outs):
         if kind == "model":
             mt = [[bytes(x) if isinstance(x, (bytes, bytearray)) else x for x in c] for c in o[0]] if isinstance(o, list) and o else o
@@ -505,10 +519,18 @@ def run(ctx):
             ok = ctx.correspondence("check_safe_trace(recorded trace of the real append) = true", short, 1, o)
             if not ok and ctx.broken and "trace" not in ctx.broken[-1]:
                 ctx.broken[-1]["trace"] = dsfs.trace_json(st["trace"], 200)
+        elif kind == "rel":
+            ctx.correspondence("check_append_rel(bytes before, bytes left by the real append) = true", short, 1, o)
         else:
+            # information (DESIGN 4.2): is the deterministic model (footer_loc + seq_write of the recorded chunks) byte-exactly what the code left?
             model = [o[0], len(o[1]), C.sha(bytes(o[1]))[:20]] if isinstance(o, list) and len(o) == 2 else o
-            ctx.correspondence("append_seq(bytes before, recorded write chunks) = bytes left by the real append", short,
-                               model, [st["loc"], len(st["after"]), C.sha(st["after"])[:20]])
+            same = model == [st["loc"], len(st["after"]), C.sha(st["after"])[:20]]
+            seq_model["equal" if same else "different"] += 1
+            if not same and len(seq_model["examples"]) < 3:
+                seq_model["examples"].append({"case": short, "model": str(model)[:200], "real": [st["loc"], len(st["after"])]})
+    ctx.extra["append_seq_model_vs_real_bytes"] = seq_model
+    ctx.notes.append("Append.append_simple (footer_loc + seq_write of the recorded write chunks) gives byte-exactly the file the real append left in %d of %d "
+                     "single-file appends (information, not an obligation)" % (seq_model["equal"], seq_model["equal"] + seq_model["different"]))
     ctx.extra["model_trace_vs_recorded_trace"] = model_trace
     ctx.notes.append("Ops.append_trace equals the recorded call trace (kinds, paths, order; write data ignored) in %d of %d multi-file appends "
                      "(information, not an obligation)" % (model_trace["equal"], model_trace["equal"] + model_trace["different"]))
